@@ -140,8 +140,19 @@ def read_back(real, fi):
     return out, None
 
 
+# which property-level judgements the calling check makes (a check raises alarms for ITS property only):
+#   integrity  every file reads back byte-exact (C08; C17 for files that carry a directive)     flags    directives honoured (C17)
+#   sharing    identical directive-free files share storage (C08)                              size     no stored block above the block size
+JUDGE = {"integrity", "flags", "sharing", "size", "determinism"}       # determinism: one input, one result whatever the workers / schedule (C02)
+
+
 def judge_real(inp, real):
-    """list of property-level problems of a real result for the input `inp` (list of file specs)"""
+    """list of property-level problems of a real result for the input `inp` (list of file specs), restricted to JUDGE"""
+    probs = _judge_all(inp, real)
+    return [p for k, p in probs if k in JUDGE or (k == "integrity_flagged" and ("integrity" in JUDGE or "integrity_flagged" in JUDGE))]
+
+
+def _judge_all(inp, real):
     probs = []
     if not real.get("disk") and real.get("dsize"):
         return probs                                   # disk too large to be dumped: nothing to judge here
@@ -152,22 +163,22 @@ def judge_real(inp, real):
         datas.append(want)
         got, why = read_back(real, fi)
         if got is None:
-            probs.append("file %d cannot be read back: %s" % (fi + 1, why))
+            probs.append(("integrity_flagged" if spec["flags"] else "integrity", "file %d cannot be read back: %s" % (fi + 1, why)))
         elif got != want:
-            probs.append("file %d reads back different bytes" % (fi + 1))
+            probs.append(("integrity_flagged" if spec["flags"] else "integrity", "file %d reads back different bytes" % (fi + 1)))
         ino = real["ino"][fi]
         fl = set(spec["flags"])
         for (bsz, comp) in ino["blocks"]:
             if bsz > BSZ:
-                probs.append("file %d: stored block larger than the block size" % (fi + 1))
+                probs.append(("size", "file %d: stored block larger than the block size" % (fi + 1)))
         if "DONT_FRAGMENT" in fl and ino["fidx"] >= 0:
-            probs.append("file %d [dont_fragment] has its tail in a fragment block" % (fi + 1))
+            probs.append(("flags", "file %d [dont_fragment] has its tail in a fragment block" % (fi + 1)))
         if "DONT_COMPRESS" in fl and any(c for (b, c) in ino["blocks"]):
-            probs.append("file %d [dont_compress] has a compressed block" % (fi + 1))
+            probs.append(("flags", "file %d [dont_compress] has a compressed block" % (fi + 1)))
         if "DONT_COMPRESS" in fl and ino["fidx"] >= 0 and ino["fidx"] < len(real["ftbl"]) and real["ftbl"][ino["fidx"]]["comp"]:
-            probs.append("file %d [dont_compress] has its tail in a compressed fragment block" % (fi + 1))
+            probs.append(("flags", "file %d [dont_compress] has its tail in a compressed fragment block" % (fi + 1)))
         if "IGNORE_SPARSE" in fl and (ino["sparse"] != 0 or any(b == 0 for (b, c) in ino["blocks"])):
-            probs.append("file %d [nosparse] has a sparse block" % (fi + 1))
+            probs.append(("flags", "file %d [nosparse] has a sparse block" % (fi + 1)))
     # dont_deduplicate: own storage; identical flag-free files: shared storage (per block run / per tail chunk)
     for g, spec in enumerate(inp):
         ig = real["ino"][g]
@@ -175,16 +186,16 @@ def judge_real(inp, real):
             ih = real["ino"][h]
             same_blocks = spec["blocks"] and inp[h]["blocks"] == spec["blocks"] and any(b for (b, c) in ig["blocks"])
             if "DONT_DEDUP" in spec["flags"] and same_blocks and ig["start"] == ih["start"] and ig["blocks"] == ih["blocks"]:
-                probs.append("file %d [dont_deduplicate] shares its blocks with file %d" % (g + 1, h + 1))
+                probs.append(("flags", "file %d [dont_deduplicate] shares its blocks with file %d" % (g + 1, h + 1)))
             if "DONT_DEDUP" in spec["flags"] and ig["fidx"] >= 0 and (ig["fidx"], ig["foff"]) == (ih["fidx"], ih["foff"]):
-                probs.append("file %d [dont_deduplicate] shares its tail with file %d" % (g + 1, h + 1))
+                probs.append(("flags", "file %d [dont_deduplicate] shares its tail with file %d" % (g + 1, h + 1)))
         if not spec["flags"] and datas[g] and any(not inp[h]["flags"] and datas[h] == datas[g] for h in range(g)):
             if any(b for (b, c) in ig["blocks"]) and not any(inp[h]["blocks"] == spec["blocks"] and real["ino"][h]["start"] == ig["start"]
                                                               and real["ino"][h]["blocks"] == ig["blocks"] for h in range(g)):
-                probs.append("file %d repeats an earlier file but its blocks are stored again" % (g + 1))
+                probs.append(("sharing", "file %d repeats an earlier file but its blocks are stored again" % (g + 1)))
             if ig["fidx"] >= 0 and not any(inp[h]["tail"] == spec["tail"] and (real["ino"][h]["fidx"], real["ino"][h]["foff"]) == (ig["fidx"], ig["foff"])
                                            for h in range(g)):
-                probs.append("file %d repeats an earlier file but its tail is stored again" % (g + 1))
+                probs.append(("sharing", "file %d repeats an earlier file but its tail is stored again" % (g + 1)))
     return probs
 
 
@@ -284,7 +295,7 @@ def replay(binp, work, emitted, workers=(1, 3), tag="bp", limit=None, sigs=None)
         key = json.dumps([e["input"], e["mb"]], sort_keys=True)
         vals = sigs.get(key, {})
         mine = {k: v for k, v in vals.items() if k[0] == tag}
-        if len(set(mine.values())) > 1:
+        if len(set(mine.values())) > 1 and "determinism" in JUDGE:
             ws = sorted(k[1] for k in mine)
             bad.append((e, ws[-1], "results differ between worker counts %s" % ws, None, None))
     return n, bad
